@@ -13,6 +13,24 @@ CHECKS = {
  "C02": ("exploration", "differential runtime monitor: generated builder programs executed on the real compiler+runner, every expression's witness value and the run outcome compared with an independent field interpreter",
          "Runtime monitoring over generated programs (all aliasing/fold/dedup/fusion shapes, 8 field setups, satisfying and perturbed inputs). Holds on the executions observed; catches miscompilations that need a specific program shape.",
          "DESIGN.md §3 C02", TRUSTED),
+ "C04": ("fault_enumeration", "runtime fault injection on execution traces: honest Traces of generated programs are forged (table cell, slot value on all tables, constants, public cells), labelled by an independent op-relation evaluator, proven with the honest prover data and shown to the real verifier",
+         "Enumerated single-fault classes on ALU/Const/Public tables of generated circuits in 8 field setups; a forgery labelled unsatisfying must be rejected. Non-primitive rows are covered at row level by C11 and for the challenger by C06. Coordinated multi-cell attacks are outside the explored set.",
+         "DESIGN.md §3 C04", TRUSTED),
+ "C07": ("fault_enumeration", "differential runtime monitor at the PCS boundary: native TwoAdicFriPcs/HidingFriPcs verify vs the in-circuit FRI verifier on honest proofs, on every single-leaf mutation of the proof/claims/commitments and on prover-side faults (deviating challenger)",
+         "Parameter grid (blow-up, queries, arity schedules, final-poly length, PoW bits, batches of mixed heights) with an exhaustive leaf sweep per honest proof; verdict agreement is the oracle.",
+         "DESIGN.md §3 C07", TRUSTED),
+ "C08": ("fault_enumeration", "differential runtime monitor: native MerkleTreeMmcs / hiding / extension MMCS verify_batch vs the in-circuit opening verifiers on honest openings at every index and on every single alteration (leaf, sibling word, index bit, cap word, salt, row swap)",
+         "Random dimension vectors (mixed heights, widths off the hash rate, cap heights, arity 2 and 4, hiding, base/extension leaves) on 13 configurations; every index of every tree.",
+         "DESIGN.md §3 C08", TRUSTED),
+ "C10": ("exploration", "runtime pipeline monitor: generated programs with satisfying inputs are taken through the real build -> key generation -> run -> prove -> verify under random prover configurations; failures are classified with the bus monitor",
+         "Programs from the generator (3/4 in the dialect that avoids known-broken constructs) x random packings, 8 field setups, plus the directed shapes named by the property.",
+         "DESIGN.md §3 C10", TRUSTED),
+ "C13": ("exploration", "differential runtime monitor: random symbolic constraint DAGs (and the repo's real AIRs) are compiled by the real symbolic compiler / eval_folded_circuit, run, and compared with the native verifier constraint folder on random assignments",
+         "Random AIRs with all leaf kinds, sharing by Arc and by re-evaluation, base/extension paths, LogUp lookups; pointer-keyed caches stressed by address reuse.",
+         "DESIGN.md §3 C13", TRUSTED),
+ "C20": ("exploration", "differential runtime monitor: each verifier gadget is instantiated in a small circuit, run, and its outputs compared with native p3-commit/p3-fri/p3-field computations over a parameter grid",
+         "16 gadgets x 4 configurations; deterministic grid over sizes/shifts/chunks/periods/lengths/exponents/indices plus random tuples, including degenerate sizes and in-domain points.",
+         "DESIGN.md §3 C20", TRUSTED),
  "C09": ("exploration", "runtime bus monitor: every WitnessChecks tuple of every row of the real Const/Public/ALU tables is replayed from the real AIRs and matrices of honest runs of generated programs and aggregated per witness slot; cross-checked against upstream's lookup debugger",
          "Per-slot invariants (one creator, creator multiplicity == reads, equal values, no floating operand) observed on honest executions of generated programs under random packings. Slots touched only by plugin tables are judged by the upstream debugger cross-check.",
          "DESIGN.md §3 C09", TRUSTED),
